@@ -1,13 +1,16 @@
 (* C19 — reference semantics for relative paths in nested config files: no process state at all.
    A relative path written in a config file denotes the file below THAT file's directory; the base
-   directory is simply handed down the tree. Loading leaves the process state as it was. *)
+   directory is simply handed down the tree. Loading leaves the process state as it was.
+   With symbolic links "that file's directory" is the directory part of the file's spelling as the kernel
+   resolves it (the directory open() actually found the file in); nothing is normalised lexically here. *)
 From JV Require Import Lib.Base Model.C19PathMode Model.C19Cwd.
 
 Section Spec.
   Variable files : list str.
+  Variable links : list (str * str).
 
-  Definition present (base given : str) : bool := mem_str (normpath (join base given)) files.
-  Definition dir_of (base given : str) : str := normpath (dirname (join base given)).
+  Definition present (base given : str) : bool := mem_str (kresolve links (join base given)) files.
+  Definition dir_of (base given : str) : str := kresolve links (dirname (join base given)).
 
   Definition spec_list (f : str -> node -> res (list item)) (base : str) :=
     fix go (l : list node) : res (list item) :=
@@ -16,7 +19,8 @@ Section Spec.
       | n :: l' =>
           match f base n with
           | Err => Err
-          | Ok xs => match go l' with Ok ys => Ok (xs ++ ys) | Err => Err end
+          | ErrOs => ErrOs
+          | Ok xs => match go l' with Ok ys => Ok (xs ++ ys) | Err => Err | ErrOs => ErrOs end
           end
       end.
 
@@ -34,24 +38,69 @@ Section Spec.
   Definition spec_top (cwd0 top : str) (body : list node) : res (list item) :=
     if present cwd0 top then spec_list spec_node (dir_of cwd0 top) body else Err.
 
-  (* ---- guard of C19_relative_follows_config: finding class 4 (list-file-relative) is its complement.
-     A list file whose content is loadable as YAML and which is named by a spelling that does not lead back to
-     the same directory when read from the list file's own directory (i.e. practically every relative spelling)
-     is outside the guard — unless the repair has landed (lf_fixed). *)
+  (* ---- guard of C19_relative_follows_config; its complement is two finding classes:
+     4 list-file-relative: a list file whose content is loadable as YAML and which is named by a spelling that does
+       not lead back to the same directory when read from the list file's own directory (i.e. practically every
+       relative spelling) — unless the repair has landed (lf_fixed);
+     5 chdir-lexical-dotdot: a config/list file whose spelling has ".." after a symbolic link: the directory the
+       code enters (abspath, i.e. lexical normalisation, before chdir) is not the directory the file is in — unless
+       the repair has landed (rp_fixed: realpath instead of abspath). (The guard also asks that the directory the
+       file is in can be entered — true of every real file system, the files being readable there.) *)
   Variable lf_fixed : bool.
+  Variable rp_fixed : bool.
+  Variable dir_ok : str -> bool.    (* os.chdir(d) succeeds *)
+
+  (* the directory the code enters for a file spelled `given` in `base` (Model.chdir_dir) *)
+  Definition cdir (base given : str) : str :=
+    kresolve links (if rp_fixed then dirname (join base given) else normpath (dirname (join base given))).
+  Definition rp_ok (base given : str) : bool :=
+    str_eqb (cdir base given) (dir_of base given) && dir_ok (dir_of base given).
 
   Fixpoint lf_guard (base : str) (n : node) : bool :=
     match n with
     | NPath _ _ | NBad => true
-    | NLoad given body => negb (present base given) || forallb (lf_guard (dir_of base given)) body
+    | NLoad given body =>
+        negb (present base given) || (rp_ok base given && forallb (lf_guard (dir_of base given)) body)
     | NListFile yaml_ok given body =>
         negb (present base given)
         || (let d := dir_of base given in
-            (lf_fixed || negb yaml_ok || (present d given && str_eqb (dir_of d given) d))
+            rp_ok base given
+            && (lf_fixed || negb yaml_ok || (present d given && str_eqb (cdir d given) d))
             && forallb (lf_guard d) body)
     | NInline body => forallb (lf_guard base) body
     end.
 
   Definition tree_guard (cwd0 top : str) (body : list node) : bool :=
-    negb (present cwd0 top) || forallb (lf_guard (dir_of cwd0 top)) body.
+    negb (present cwd0 top) || (rp_ok cwd0 top && forallb (lf_guard (dir_of cwd0 top)) body).
+
+  (* ---- guard of C19_cwd_restored: every directory the code tries to enter can be entered (os.chdir comes before
+     the `try:` of change_to_path_dir). It follows the directories the CODE enters (cdir), whatever they are; it is
+     implied by tree_guard, and with rp_fixed it only says that the directories of the existing files exist. *)
+  Fixpoint enter_guard (base : str) (n : node) : bool :=
+    match n with
+    | NPath _ _ | NBad => true
+    | NLoad given body =>
+        negb (present base given)
+        || (let d := cdir base given in dir_ok d && forallb (enter_guard d) body)
+    | NListFile yaml_ok given body =>
+        negb (present base given)
+        || (let d := cdir base given in
+            dir_ok d
+            && (if yaml_ok && negb lf_fixed
+                then negb (present d given)
+                     || (let d2 := cdir d given in dir_ok d2 && forallb (enter_guard d2) body)
+                else forallb (enter_guard d) body))
+    | NInline body => forallb (enter_guard base) body
+    end.
+
+  Definition tree_enter_guard (cwd0 top : str) (body : list node) : bool :=
+    negb (present cwd0 top)
+    || (let d := cdir cwd0 top in dir_ok d && forallb (enter_guard d) body).
 End Spec.
+
+(* finding class of a tree: 0 inside the guard; 5 when only the lexical ".." condition fails; 4 otherwise *)
+Definition tree_class (files : list str) (links : list (str * str)) (lf_fixed rp_fixed : bool) (dir_ok : str -> bool)
+                      (cwd0 top : str) (body : list node) : N :=
+  if tree_guard files links lf_fixed rp_fixed dir_ok cwd0 top body then 0
+  else if tree_guard files links lf_fixed true (fun _ => true) cwd0 top body then 5 else 4.
+
